@@ -5,6 +5,7 @@ package main
 // handle, so it needs a handle that is safe to re-use (clone > 0).
 
 import (
+	"context"
 	"fmt"
 	"math/rand"
 
@@ -178,6 +179,17 @@ func c18Ops() []c18Op {
 		{Name: "S.MigratorProbe", Run: func(db *gorm.DB, rng *rand.Rand) error {
 			m := db.Migrator()
 			_ = m.HasTable(&RUser{})
+			return nil
+		}},
+		{Name: "S.SubqueryForeign", Run: func(db *gorm.DB, rng *rand.Rand) error {
+			// a sub-query handle bound to ANOTHER context is only rendered, never executed: the statement
+			// belongs to the handle that runs it
+			foreign := db.Session(&gorm.Session{NewDB: true}).WithContext(WithMarker(context.Background(), "foreign"))
+			var us []RUser
+			return db.Where("company_id IN (?)", foreign.Model(&RCompany{}).Select("id")).Preload("Pets").Find(&us).Error
+		}},
+		{Name: "S.ToSQL", Run: func(db *gorm.DB, rng *rand.Rand) error {
+			_ = db.ToSQL(func(tx *gorm.DB) *gorm.DB { return tx.Model(&RUser{}).Where("id = ?", 1).Find(&[]RUser{}) })
 			return nil
 		}},
 		{Name: "S.AutoMigrate", Run: func(db *gorm.DB, rng *rand.Rand) error { return db.AutoMigrate(&RCompany{}) }},
